@@ -171,6 +171,8 @@ def _mk_if(c, t, e):
         return c
     if e == ("lit", False):
         return ("op", "&&", [c, t])
+    if e == ("lit", True):
+        return ("op", "||", [_not(c), t])
     if t == ("def", "v1::None") and e[0] == "call" and e[1] == "Some" and len(e[2]) == 1:
         return ("call", "then", [_not(c), e[2][0]])
     if e == ("def", "v1::None") and t[0] == "call" and t[1] == "Some" and len(t[2]) == 1:
@@ -835,6 +837,8 @@ class Norm:
         if k == "Unary":
             if e["op"] == "Deref":
                 return self._t(e["e"])
+            if e["op"] == "Not":
+                return _not(self._t(e["e"]))
             return ("op", e["op"], [self._t(e["e"])])
         if k == "Path":
             if e.get("r") == "local":
@@ -916,6 +920,18 @@ class Norm:
             if not args and name in ("Option::is_some", "Option::is_none", "Result::is_ok", "Result::is_err"):
                 c = _let({"Option::is_some": "v1::Some($)", "Option::is_none": "v1::Some($)", "Result::is_ok": "v1::Ok($)", "Result::is_err": "v1::Err($)"}[name], recv)
                 return _not(c) if name == "Option::is_none" else c
+            if name == "Option::unwrap_or" and len(args) == 1:
+                return _mk_iflet("v1::Some($)", recv, _proj_some(recv), args[0])
+            if name == "Option::unwrap_or_else" and len(args) == 1 and args[0][0] == "closure" and args[0][2] == 0:
+                return _mk_iflet("v1::Some($)", recv, _proj_some(recv), _apply(args[0], None))
+            if name == "Option::unwrap_or_default" and not args and e.get("ty") == "bool":
+                return _mk_iflet("v1::Some($)", recv, _proj_some(recv), ("lit", False))
+            if name == "Option::map_or" and len(args) == 2 and args[1][0] == "closure" and args[1][2] == 1:
+                return _mk_iflet("v1::Some($)", recv, _apply(args[1], _proj_some(recv)), args[0])
+            if name == "Option::is_some_and" and len(args) == 1 and args[0][0] == "closure" and args[0][2] == 1:
+                return _mk_iflet("v1::Some($)", recv, _apply(args[0], _proj_some(recv)), ("lit", False))
+            if name == "Option::is_none_or" and len(args) == 1 and args[0][0] == "closure" and args[0][2] == 1:
+                return _mk_iflet("v1::Some($)", recv, _apply(args[0], _proj_some(recv)), ("lit", True))
             if name in ("Option::unwrap", "Option::expect") and len(args) <= 1:
                 return _proj_some(recv)                      # the payload; whether the unwrap can fail is K10's business, not the term's
             if name in ("Result::unwrap", "Result::expect") and len(args) <= 1:
@@ -1022,6 +1038,8 @@ class Norm:
                             tail = ("opaque", "diverge")
             if tail == ("lit", "()") and e.get("ty") == "!":
                 tail = ("opaque", "diverge")
+            if e is self._fn_block and tail[0] == "call" and tail[1] == "Option::map" and len(tail[2]) == 2 and tail[2][1][0] == "closure" and tail[2][1][2] == 1:
+                tail = ("call", "Some", [_apply(tail[2][1], ("try", tail[2][0]))])      # opt.map(|v| f(v)) as the result of the function  ==  Some(f(opt?))
             if effs and tail[0] == "if" and (_is_unit(tail[3]) or _is_unit(tail[2])):
                 both = _found_flag_loops(effs + [tail])
                 if len(both) < len(effs) + 1:
